@@ -16,6 +16,8 @@ type modTarget struct {
 	ref   string // "" = whole array
 	isPrefix bool
 	callsOf string // for calls(f): the function id
+	recv    string // for calls(x.M): the receiver (a nil receiver is never called)
+	methodCalls bool // "methodcalls": the counters of interface-method identities may move (real function values may not)
 }
 
 // paramNames returns the names under which arguments are visible to a contract.
@@ -52,6 +54,10 @@ func (t *Task) resolveMods(env *ExprEnv, con *FuncContract) (targets []modTarget
 				if item == "" || item == "nothing" {
 					continue
 				}
+				if item == "methodcalls" {
+					targets = append(targets, modTarget{methodCalls: true})
+					continue
+				}
 				if item == "*" {
 					havoc = true
 					targets = append(targets, modTarget{array: "", isPrefix: true})
@@ -77,7 +83,17 @@ func (t *Task) resolveMod(env *ExprEnv, item, src string) []modTarget {
 			switch id.Name {
 			case "calls":
 				f := env.eval(e.Args[0])
-				return []modTarget{{callsOf: f.S}}
+				mt := modTarget{callsOf: f.S}
+				if sel, ok := e.Args[0].(*ast.SelectorExpr); ok {
+					saved := len(t.errs)
+					if rv := env.eval(sel.X); rv.K == KIface {
+						mt.recv = rv.S
+					}
+					if len(t.errs) > saved {
+						t.errs = t.errs[:saved]
+					}
+				}
+				return []modTarget{mt}
 			case "elems": // elems(x.f): all elements of slice x.f
 				s := env.eval(e.Args[0])
 				if s.K != KSlice {
@@ -97,6 +113,16 @@ func (t *Task) resolveMod(env *ExprEnv, item, src string) []modTarget {
 				if T == nil {
 					t.errorf("%s: unknown type in alloftype", src)
 					return nil
+				}
+				// register every field array of T so that the wholesale havoc reaches them all
+				for _, lf := range t.leavesOf(T) {
+					t.regArray(prefixFor(T)+lf.path, "(Array Int "+sortOfKind(lf.kind)+")")
+				}
+				for gk, g := range t.eng.con.Ghost {
+					if strings.HasPrefix(gk, typeKey(T)+".") {
+						_, srt := env.ghostType(g.GoType)
+						t.regArray(g.Pkg+"."+g.Type+".$"+g.Name, "(Array Int "+srt+")")
+					}
 				}
 				return []modTarget{{array: prefixFor(T) + ".", isPrefix: true}, {array: "elem:" + prefixFor(T) + ".", isPrefix: true}}
 			case "held":
@@ -317,12 +343,26 @@ func (a *Activation) applyContract(con *FuncContract, fn *ssa.Function, args []V
 	}
 	for _, m := range targets {
 		switch {
+		case m.methodCalls:
+			calls := t.callsArr(post)
+			nc := t.fresh("$calls@mc", "(Array Int Int)")
+			t.assume(st.pc, "(forall ((|r!m| Int)) (! (and (>= (select "+nc+" |r!m|) (select "+calls+" |r!m|)) (=> (not (= ("+t.fkind()+" |r!m|) 3)) (= (select "+nc+" |r!m|) (select "+calls+" |r!m|)))) :pattern ((select "+nc+" |r!m|))))")
+			t.set(post, "$calls", nc)
+			for name := range t.arrSort {
+				if strings.HasPrefix(name, "$oarg") || name == "$otick" {
+					t.set(post, name, t.fresh(name+"@mc", t.sortOfArray(name)))
+				}
+			}
 		case m.callsOf != "":
 			calls := t.callsArr(post)
 			nv := t.fresh("calls@c", "Int")
 			t.assume(st.pc, "(>= "+nv+" "+sApp("select", calls, m.callsOf)+")")
 			// a nil function value is never called (nilcall obligations): the counter of "nil" does not move
-			t.set(post, "$calls", sIte(sEq(m.callsOf, "0"), calls, sApp("store", calls, m.callsOf, nv)))
+			never := sEq(m.callsOf, "0")
+			if m.recv != "" {
+				never = sOr(never, sEq(m.recv, "0"))
+			}
+			t.set(post, "$calls", sIte(never, calls, sApp("store", calls, m.callsOf, nv)))
 			t.regArray("$tick", "Int")
 			tk := t.lookup(post, "$tick")
 			ntk := t.fresh("tick@c", "Int")
@@ -332,7 +372,7 @@ func (a *Activation) applyContract(con *FuncContract, fn *ssa.Function, args []V
 				if strings.HasPrefix(name, "$oarg") || name == "$otick" {
 					cur := t.lookup(post, name)
 					inner := t.fresh(name+"@ci", strings.TrimSuffix(strings.TrimPrefix(t.sortOfArray(name), "(Array Int "), ")"))
-					t.set(post, name, sIte(sEq(m.callsOf, "0"), cur, sApp("store", cur, m.callsOf, inner)))
+					t.set(post, name, sIte(never, cur, sApp("store", cur, m.callsOf, inner)))
 				}
 			}
 		case m.isPrefix && m.array == "":
@@ -621,8 +661,13 @@ func (t *Task) frameCheck(act *Activation, con *FuncContract, st0, out *State) {
 			continue
 		}
 		whole := false
+		methodsFree := false
 		var refs []string
 		for _, m := range targets {
+			if m.methodCalls {
+				methodsFree = true
+				continue
+			}
 			if m.callsOf != "" {
 				if name == "$calls" {
 					refs = append(refs, m.callsOf)
@@ -653,6 +698,9 @@ func (t *Task) frameCheck(act *Activation, con *FuncContract, st0, out *State) {
 		}
 		for _, x := range refs {
 			prem = append(prem, sNot(sEq(r, x)))
+		}
+		if name == "$calls" && methodsFree {
+			prem = append(prem, sNot(sEq(sApp(t.fkind(), r), "3")))
 		}
 		if name == "$calls" {
 			if t.modelNames == nil {
